@@ -68,12 +68,14 @@ def main(tier, seed, replay):
         return 2
 
 
-REQUIRED = [("faults", "diagnostic_requests"), ("faults", "expander_panics_caught"), ("faults", "worker_crash_and_replace"),
+# reach probes on what the *simulator* did (what the code under simulation answers — a diagnostic, a panic — is its
+# own business: turning panics into diagnostics is a legitimate change and must not make the check fail)
+REQUIRED = [("faults_issued_by_the_simulator", "requests_for_known_failing_inputs"), ("faults_issued_by_the_simulator", "requests_served_without_catch_unwind"),
             ("faults", "process_restarts"), ("faults", "clock_skewed_processes"), ("faults", "pid_faked_processes"),
             ("multi_worker_processes",), ("distinct_entropy_seeds",), ("distinct_layouts",),
             ("environment_dimensions_exercised", "processes_under_a_host_executable_name"), ("environment_dimensions_exercised", "processes_with_a_manifest_on_disk"),
             ("environment_dimensions_exercised", "processes_with_cargo_variables"), ("environment_dimensions_exercised", "processes_pinned_to_a_cpu_subset"),
-            ("environment_dimensions_exercised", "processes_serving_1000_or_more_requests")]
+            ("environment_dimensions_exercised", "processes_serving_1000_or_more_requests"), ("environment_dimensions_exercised", "processes_on_a_terminal")]
 
 
 def do_check(tier, seed, t0):
